@@ -597,3 +597,167 @@ Lemma wrapping_is_fst w x s :
   I_wrapping_shl w x s = fst (U_overflowing_shl w x s) /\
   I_wrapping_shr w x s = fst (I_overflowing_shr w x s).
 Proof. repeat split. Qed.
+
+(* ================================================================== *)
+(* 3 (cont.). unbounded shifts                                         *)
+(* ================================================================== *)
+
+Lemma wf_ZERO w n : 0 <= w -> wf w n (ZERO n).
+Proof.
+  intros. unfold ZERO. split; [apply repeat_length | apply Forall_repeat, digit_ok_0; lia].
+Qed.
+
+Lemma uval_ZERO w n : uval w (ZERO n) = 0.
+Proof. apply uval_repeat_0. Qed.
+
+Lemma wf_UMAX w n : 0 <= w -> wf w n (UMAX w n).
+Proof.
+  intros. unfold UMAX, u_max. split; [apply repeat_length | apply Forall_repeat, digit_ok_max; lia].
+Qed.
+
+Lemma pow2_ge_Mod w n s : 0 < w -> bits w n <= s -> exists t, 0 < t /\ 2 ^ s = t * Mod w n.
+Proof.
+  intros Hw Hs. exists (2 ^ (s - bits w n)). unfold bits in *.
+  assert (0 <= w * Z.of_nat n) by nia.
+  split; [apply pow2_pos; lia|]. unfold Mod. rewrite <- pow2_split by lia. f_equal. lia.
+Qed.
+
+Theorem U_unbounded_shl_ok w n x s : 0 < w -> wf w n x -> 0 <= s ->
+  (bits w n <= s -> U_unbounded_shl w x s = ZERO n) /\
+  shl_post w n x s (U_unbounded_shl w x s).
+Proof.
+  intros Hw Hwf Hs. unfold U_unbounded_shl. rewrite (wf_length _ _ _ Hwf).
+  destruct (Z.leb_spec (bits w n) s) as [H|H].
+  - split; [reflexivity|]. split; [apply wf_ZERO; lia|].
+    rewrite uval_ZERO. destruct (pow2_ge_Mod w n s Hw H) as (t & _ & ->).
+    rewrite Z.mul_assoc, Z.mod_mul; [reflexivity|]. pose proof (Mod_pos w n); lia.
+  - split; [lia|]. apply shl_internal_ok; auto.
+Qed.
+
+Theorem U_unbounded_shr_ok w n x s : 0 < w -> wf w n x -> 0 <= s ->
+  (bits w n <= s -> U_unbounded_shr w x s = ZERO n) /\
+  shr_post w n x s (U_unbounded_shr w x s).
+Proof.
+  intros Hw Hwf Hs. unfold U_unbounded_shr. rewrite (wf_length _ _ _ Hwf).
+  destruct (Z.leb_spec (bits w n) s) as [H|H].
+  - split; [reflexivity|]. split; [apply wf_ZERO; lia|].
+    rewrite uval_ZERO. destruct (pow2_ge_Mod w n s Hw H) as (t & Ht & ->).
+    pose proof (uval_bounds w n x ltac:(lia) Hwf). pose proof (Mod_pos w n ltac:(lia)).
+    symmetry. apply Z.div_small. nia.
+  - split; [lia|]. apply shr_internal_ok; auto.
+Qed.
+
+Lemma I_unbounded_shl_is_U : I_unbounded_shl = U_unbounded_shl.
+Proof. reflexivity. Qed.
+
+Lemma Mod_ge_2 w n : 0 < w -> (0 < n)%nat -> 2 <= Mod w n /\ Mod w n = 2 * (Mod w n / 2).
+Proof.
+  intros Hw Hn. pose proof (Mod_even w n Hw Hn). pose proof (Mod_pos w n ltac:(lia)). lia.
+Qed.
+
+Lemma sval_UMAX w n : 0 < w -> (0 < n)%nat -> sval w (UMAX w n) = -1.
+Proof.
+  intros Hw Hn. unfold sval, UMAX, u_max. rewrite repeat_length, uval_repeat_max by lia.
+  destruct (Mod_ge_2 w n Hw Hn). unfold to_signed.
+  destruct (Z.ltb_spec (Mod w n - 1) (Mod w n / 2)); lia.
+Qed.
+
+Lemma sval_ZERO w n : 0 < w -> (0 < n)%nat -> sval w (ZERO n) = 0.
+Proof.
+  intros Hw Hn. unfold sval. rewrite uval_ZERO. unfold ZERO. rewrite repeat_length.
+  unfold to_signed. destruct (Mod_ge_2 w n Hw Hn).
+  destruct (Z.ltb_spec 0 (Mod w n / 2)); [reflexivity | lia].
+Qed.
+
+Theorem I_unbounded_shr_ok w n x s : 0 < w -> (0 < n)%nat -> wf w n x -> 0 <= s ->
+  sar_post w n x s (I_unbounded_shr w x s) /\
+  (bits w n <= s ->
+     I_unbounded_shr w x s = (if sval w x <? 0 then NEG_ONE w n else ZERO n) /\
+     sval w (I_unbounded_shr w x s) = if sval w x <? 0 then -1 else 0).
+Proof.
+  intros Hw Hn Hwf Hs. unfold I_unbounded_shr. rewrite (wf_length _ _ _ Hwf).
+  rewrite (is_negative_sval w n x Hw Hn Hwf).
+  destruct (Z.leb_spec (bits w n) s) as [H|H].
+  - pose proof (sval_range w n x Hw Hn Hwf) as Hr.
+    destruct (pow2_ge_Mod w n s Hw H) as (t & Ht & Hts).
+    destruct (Mod_ge_2 w n Hw Hn) as (HM2 & HMe).
+    assert (Hv : sval w (if sval w x <? 0 then NEG_ONE w n else ZERO n)
+                 = if sval w x <? 0 then -1 else 0).
+    { destruct (sval w x <? 0); [apply sval_UMAX | apply sval_ZERO]; auto. }
+    split; [|intros _; split; [reflexivity | exact Hv]].
+    split.
+    + destruct (sval w x <? 0); [apply wf_UMAX | apply wf_ZERO]; lia.
+    + rewrite Hv. destruct (Z.ltb_spec (sval w x) 0) as [Hlt|Hge].
+      * apply (Z.div_unique (sval w x) (2 ^ s) (-1) (sval w x + 2 ^ s)); [left; nia | ring].
+      * symmetry. apply Z.div_small. nia.
+  - split; [|lia]. rewrite <- (is_negative_sval w n x Hw Hn Hwf). apply sar_internal_ok; auto.
+Qed.
+
+(* ================================================================== *)
+(* 3 (cont.). strict and inherent (debug-checked) shifts               *)
+(* ================================================================== *)
+
+Lemma inherent_shape {A} (dbg b : bool) (v wr : A) (bitsn s : Z) (P : A -> Prop) :
+  b = (bitsn <=? s) -> (s < bitsn -> P v) -> (s < bitsn -> wr = v) ->
+  let o := if dbg then option_expect (if b then None else Some v) else Ret wr in
+  (o = Panic <-> dbg = true /\ bitsn <= s) /\
+  (s < bitsn -> exists r, o = Ret r /\ P r) /\
+  (dbg = false -> o = Ret wr).
+Proof.
+  intros -> HP Hwr o. unfold o. destruct dbg; cbn [option_expect].
+  - destruct (Z.leb_spec bitsn s) as [H|H]; cbn [option_expect].
+    + split; [split; auto|]. split; [intros; lia | discriminate].
+    + split; [split; [discriminate | intros [_ ?]; lia]|].
+      split; [intros _; exists v; auto | discriminate].
+  - split; [split; [discriminate | intros [? _]; discriminate]|].
+    split; [|reflexivity]. intros H. exists wr. split; [reflexivity|]. rewrite Hwr by exact H. auto.
+Qed.
+
+Theorem U_shl_ok dbg w n x s : 0 < w -> wf w n x -> 0 <= s ->
+  (U_shl dbg w x s = Panic <-> dbg = true /\ bits w n <= s) /\
+  (s < bits w n -> exists r, U_shl dbg w x s = Ret r /\ shl_post w n x s r) /\
+  (dbg = false -> U_shl dbg w x s = Ret (U_wrapping_shl w x s)).
+Proof.
+  intros Hw Hwf Hs. unfold U_shl, U_strict_shl, U_wrapping_shl.
+  rewrite (U_checked_shl_eq w n), (U_overflowing_shl_eq w n) by (apply Hwf).
+  apply inherent_shape; [reflexivity | intros; apply shl_internal_ok; auto |].
+  intros H. destruct (Z.leb_spec (bits w n) s); [lia | reflexivity].
+Qed.
+
+Theorem U_shr_ok dbg w n x s : 0 < w -> wf w n x -> 0 <= s ->
+  (U_shr dbg w x s = Panic <-> dbg = true /\ bits w n <= s) /\
+  (s < bits w n -> exists r, U_shr dbg w x s = Ret r /\ shr_post w n x s r) /\
+  (dbg = false -> U_shr dbg w x s = Ret (U_wrapping_shr w x s)).
+Proof.
+  intros Hw Hwf Hs. unfold U_shr, U_strict_shr, U_wrapping_shr.
+  rewrite (U_checked_shr_eq w n), (U_overflowing_shr_eq w n) by (apply Hwf).
+  apply inherent_shape; [reflexivity | intros; apply shr_internal_ok; auto |].
+  intros H. destruct (Z.leb_spec (bits w n) s); [lia | reflexivity].
+Qed.
+
+Theorem I_shl_ok dbg w n x s : 0 < w -> wf w n x -> 0 <= s ->
+  (I_shl dbg w x s = Panic <-> dbg = true /\ bits w n <= s) /\
+  (s < bits w n -> exists r, I_shl dbg w x s = Ret r /\ shl_post w n x s r) /\
+  (dbg = false -> I_shl dbg w x s = Ret (I_wrapping_shl w x s)).
+Proof.
+  intros Hw Hwf Hs. unfold I_shl, I_strict_shl, I_wrapping_shl, I_overflowing_shl.
+  rewrite (I_checked_shl_eq w n), (U_overflowing_shl_eq w n) by (apply Hwf).
+  apply inherent_shape; [reflexivity | intros; apply shl_internal_ok; auto |].
+  intros H. destruct (Z.leb_spec (bits w n) s); [lia | reflexivity].
+Qed.
+
+Theorem I_shr_ok dbg w n x s : 0 < w -> wf w n x -> 0 <= s ->
+  (I_shr dbg w x s = Panic <-> dbg = true /\ bits w n <= s) /\
+  (s < bits w n -> exists r, I_shr dbg w x s = Ret r /\ sar_post w n x s r) /\
+  (dbg = false -> I_shr dbg w x s = Ret (I_wrapping_shr w x s)).
+Proof.
+  intros Hw Hwf Hs. unfold I_shr, I_strict_shr, I_wrapping_shr.
+  rewrite (I_checked_shr_eq w n), (I_overflowing_shr_eq w n) by (apply Hwf).
+  apply inherent_shape; [reflexivity | intros; apply sar_internal_ok; auto |].
+  intros H. destruct (Z.leb_spec (bits w n) s); [lia | reflexivity].
+Qed.
+
+Lemma strict_is_dbg w x s :
+  U_strict_shl w x s = U_shl true w x s /\ U_strict_shr w x s = U_shr true w x s /\
+  I_strict_shl w x s = I_shl true w x s /\ I_strict_shr w x s = I_shr true w x s.
+Proof. repeat split. Qed.
